@@ -296,6 +296,7 @@ type plan struct {
 	weights    tableWeights
 	orderSalt  uint64
 	allOrigins bool
+	selfTo     bool // always include ExpandSearchTo towards the origin itself
 }
 
 func runWorld(c *hx.Ctx, p plan) {
@@ -394,10 +395,11 @@ func runWorld(c *hx.Ctx, p plan) {
 			c.Note("op:access")
 		}
 		// ExpandSearchTo / ComputeShortestPath towards two other points
-		for k := 0; k < 2 && len(pts) > 1; k++ {
+		for k := 0; k < 2; k++ {
 			to := pts[r.Intn(len(pts))]
-			if to == o {
-				continue
+			if k == 0 && (p.selfTo || r.Chance(1, 4)) {
+				to = o // destination = origin (fix C30-expandsearchto-known-destination)
+				c.Note("searchto:to-is-origin")
 			}
 			max := limits[r.Intn(len(limits))]
 			if r.Chance(1, 3) {
@@ -557,7 +559,7 @@ func corpus(c *hx.Ctx) {
 				kind = "compact"
 			}
 			runWorld(c, plan{kind: kind, net: net, weights: tableWeights{salt: uint64(i)*77 + mod, mod: mod, symmetric: mod != 3},
-				orderSalt: uint64(i) + mod, allOrigins: true})
+				orderSalt: uint64(i) + mod, allOrigins: true, selfTo: true})
 		}
 	}
 	c.NonTrivial()
